@@ -140,13 +140,6 @@ example :
 
 /-! ## the interpreter loop: fuel does not steer the machine -/
 
-/-- what the limited run returns when it is not stopped by fuel: the unlimited result, with a
-    dispatch error `e` reported as the same error -/
-def sameResult {S E : Type} (r : Except E S) : Except (FErr E) S :=
-  match r with
-  | .ok s => .ok s
-  | .error e => .error (.other e)
-
 /-- NON-INTERFERENCE.  For every machine (arbitrary state, arbitrary fetch and dispatch functions
     that do not receive the tracker), every start state whose unlimited run terminates (normally or
     with an error `e` of the dispatch) and every budget `B : u64`: the limited run terminates within
@@ -185,7 +178,6 @@ theorem fuel_does_not_steer {S E : Type} (m : Machine S E) (n : Nat) (s : S) (u 
   · intro hb
     obtain ⟨h1, _, h3⟩ := hge hb
     simp only [h1, h3, limitedResult, sameResult, and_true]
-    cases u.result <;> rfl
   · intro hb
     obtain ⟨h1, _, h3⟩ := hlt hb
     simp only [h1, limitedResult, h3, and_self]
@@ -254,8 +246,7 @@ theorem nested_threshold_exact {S E : Type} (m : NMachine S E) (n : Nat) (s : S)
   refine ⟨_, hrun, executed_prefix _ _, ?_, ?_, hsum⟩
   · intro hb
     obtain ⟨h1, h2, h3⟩ := hge hb
-    simp only [h1, h2, h3, limitedResult, sameResult, true_and, and_true]
-    cases u.result <;> rfl
+    simp only [h1, h2, h3, limitedResult, sameResult, and_true]
   · intro hb
     obtain ⟨h1, _, h3⟩ := hlt hb
     simp only [h1, limitedResult, h3, and_self]
@@ -296,6 +287,99 @@ theorem zero_budget_refuses (trace : List String) (h : total trace ≠ 0) :
   exact ⟨this.1, this.2.2⟩
 
 example : total ["PushLoop", "Iterate"] ≠ 0 ∨ total ["PushLoop", "Iterate"] = 0 := by decide
+
+/-! ## what the program can observe -/
+
+/-- NO OBSERVATION DEPENDS ON THE BUDGET.  Whatever the program (or a Rust callable it invokes, or
+    a `Debug`/`Display` rendering of its state) computes from the instructions it ran, the states
+    it went through and its result — any function `obs` of those — is the same for every two
+    sufficient budgets and the same as without a budget.  The tracker is the only component that
+    differs, by exactly the difference of the budgets; it is visible through the Rust API
+    `State::fuel_levels` only (tie `no_budget_observer`). -/
+theorem observations_budget_independent {S E O : Type} (m : Machine S E) (n : Nat) (s : S) (u : URun S E)
+    (h : m.run n s = some u) (B B' : Nat) (hB : B < u64Bound) (hB' : B' < u64Bound)
+    (hb : thr u.trace ≤ B) (hb' : thr u.trace ≤ B')
+    (obs : List String → List S → Except (FErr E) S → O) :
+    ∃ f f', m.runFuel n (Tracker.new B) s = some f ∧ m.runFuel n (Tracker.new B') s = some f' ∧
+      obs f.trace f.states f.result = obs f'.trace f'.states f'.result ∧
+      obs f.trace f.states f.result = obs u.trace u.states (sameResult u.result) ∧
+      f.tracker.consumed = f'.tracker.consumed ∧
+      f.tracker.remainingFuel + B' = f'.tracker.remainingFuel + B := by
+  obtain ⟨f, hf, _, _, _, hiff, hge, _, hsum⟩ := fuel_does_not_steer m n s u h B hB
+  obtain ⟨f', hf', _, _, _, hiff', hge', _, hsum'⟩ := fuel_does_not_steer m n s u h B' hB'
+  obtain ⟨ht, hs⟩ := hiff.mpr hb
+  obtain ⟨ht', hs'⟩ := hiff'.mpr hb'
+  obtain ⟨hr, hc⟩ := hge hb
+  obtain ⟨hr', hc'⟩ := hge' hb'
+  refine ⟨f, f', hf, hf', ?_, ?_, ?_, ?_⟩
+  · rw [ht, hs, hr, ht', hs', hr']
+  · rw [ht, hs, hr]
+  · rw [hc, hc']
+  · omega
+
+example : thr (["Lookup", "Emit"] : List String) ≤ 4294967296 ∧ thr ["Lookup", "Emit"] ≤ 18446744073709551615 := by decide
+
+/-- WHO CAN SEE THE LEVELS.  The readers of `fuel_tracker` / `fuel_levels()` / `.remaining()` /
+    `.consumed()` in the crate (and minijinja-contrib), regenerated from the sources with a class
+    per row, are: the charge in `eval_impl` and the body of the Rust API `State::fuel_levels`.
+    No row is classed "reachable from template output" (a `fmt` of a `Debug`/`Display` impl, a
+    builtin function/filter/test, a value object, the output machinery). -/
+theorem no_budget_observer :
+    MJ.Gen.fuelReaders = [
+      ("vm/mod.rs", "fn eval_impl", "reads fuel_tracker", "accounting"),
+      ("vm/state.rs", "fn fuel_levels", "reads fuel_tracker", "rust api State::fuel_levels"),
+      ("vm/state.rs", "fn fuel_levels", "reads levels", "rust api State::fuel_levels")] ∧
+    MJ.Gen.fuelReaders.all (fun r => r.2.2.2 != "reachable from template output") = true := by decide
+
+/-! ## configuration path and entry points -/
+
+/-- Every evaluation reads the budget when its `State` is created.
+    * `set_fuel(None)` — also after an earlier `set_fuel(Some(_))` — is unmetered: the unlimited run,
+      `fuel_levels() = None`;
+    * the last `set_fuel` wins, a clone carries the budget of the moment it was taken and is not
+      affected by a later `set_fuel` on the original;
+    * `set_fuel(Some(B))` is `runFuel` from a fresh tracker with `B`: renders do not share fuel. -/
+theorem config_path {S E : Type} (m : Machine S E) (n : Nat) (s : S) (e : EnvCfg) (a : Option Nat) (B : Nat) :
+    m.render n ((e.setFuel a).setFuel none) s =
+      (m.run n s).map (fun u => { trace := u.trace, states := u.states, result := sameResult u.result, levels := none }) ∧
+    ((e.setFuel a).setFuel (some B)).fuel = some B ∧
+    ((e.setFuel (some B)).clone.fuel = some B ∧ (((e.setFuel (some B)).clone, (e.setFuel (some B)).setFuel a).1).fuel = some B) ∧
+    m.render n (e.setFuel (some B)) s =
+      (m.runFuel n (Tracker.new B) s).map (fun f =>
+        { trace := f.trace, states := f.states, result := f.result,
+          levels := some (f.tracker.consumed, f.tracker.remainingFuel) }) := by
+  refine ⟨rfl, rfl, ⟨rfl, rfl⟩, rfl⟩
+
+example : (({ fuel := some 5 } : EnvCfg).setFuel none).fuel = none ∧ newTracker { fuel := some 7 } = some (Tracker.new 7) := by decide
+
+/-- the budget semantics through the configuration path: for every machine whose unlimited run
+    terminates, rendering with `set_fuel(Some(B))` gives the unlimited result iff `B ≥ thr`, else
+    out-of-fuel, and the reported levels add up to `B` -/
+theorem render_threshold_exact {S E : Type} (m : Machine S E) (n : Nat) (s : S) (u : URun S E)
+    (h : m.run n s = some u) (e : EnvCfg) (B : Nat) (hB : B < u64Bound) :
+    ∃ r, m.render n (e.setFuel (some B)) s = some r ∧
+      (thr u.trace ≤ B → r.trace = u.trace ∧ r.states = u.states ∧ r.result = sameResult u.result) ∧
+      (B < thr u.trace → r.result = .error .outOfFuel) ∧
+      (∃ c l, r.levels = some (c, l) ∧ c + l = B) := by
+  obtain ⟨f, hf, _, _, _, hiff, hge, hlt, hsum⟩ := fuel_does_not_steer m n s u h B hB
+  refine ⟨{ trace := f.trace, states := f.states, result := f.result,
+            levels := some (f.tracker.consumed, f.tracker.remainingFuel) },
+          by simp [Machine.render, newTracker, EnvCfg.setFuel, hf], ?_, ?_, ⟨_, _, rfl, hsum⟩⟩
+  · intro hb
+    exact ⟨(hiff.mpr hb).1, (hiff.mpr hb).2, (hge hb).1⟩
+  · intro hb
+    exact (hlt hb).1
+
+example : ∃ u, (({ fetch := fun k => if k = 0 then none else some "Emit", exec := fun k => .ok (k - 1) } : Machine Nat Unit).run 5 2) = some u := ⟨_, rfl⟩
+
+/-- ENTRY POINTS.  In the call graph regenerated from the sources every public way to start an
+    evaluation — `Template::render`, `render_captured`, `render_captured_to`, `Template::new_state`,
+    `Expression::eval`, `Environment::render_str`, `render_named_str`, `empty_state` — reaches
+    `State::new`, where the tracker is created from `env.fuel()` (`uses_as_modelled`). -/
+theorem entry_points_reach_state_new :
+    ["Template::render", "Template::render_captured", "Template::render_captured_to", "Template::new_state",
+     "Expression::eval", "Environment::render_str", "Environment::render_named_str", "Environment::empty_state"].all
+      (reaches MJ.Gen.fuelEntryCalls "State::new" 8) = true := by decide
 
 /-! ## source ties for the hypotheses of the machine model -/
 
